@@ -12,7 +12,7 @@ CHECKS = {
         design="DESIGN.md §4 C02"),
     "C17": dict(
         technique="runtime monitor: generating-model oracle over grammar-generated config documents, fault injection with an error-or-complete oracle, hostile bytes under recover()",
-        text="Documents are generated from the config grammar together with their model; the real parser's every getter (GetString/GetMap/GetDomain/GetDomainKey/GetDomainLine and the typed getters) is compared with the model. Nine kinds of syntax fault are injected into valid documents and the oracle accepts an error or a complete parse only. Random and mutated bytes must not panic parser or getters.",
+        text="Documents are generated from the config grammar together with their model; the real parser's every getter (GetString/GetMap/GetDomain/GetDomainKey/GetDomainLine and the typed getters) is compared with the model. Nine kinds of syntax fault are injected into valid documents and the oracle accepts an error or a complete parse only. Random and mutated bytes must not panic parser or getters. Lines may be glued to tags without a line break, entries may stand at the top level, and the root's listings are compared.",
         note="Trusts the generator's statement of the grammar (trim set ' \\n\\t', first '=' splits, '#' comments, later duplicates win). A key and a sub-domain of one name, keys containing '/', '<', '>' and XML entities/CDATA/']]>' are outside the judged grammar.",
         design="DESIGN.md §4 C17"),
     "C18": dict(
@@ -22,12 +22,12 @@ CHECKS = {
         design="DESIGN.md §4 C18"),
     "C19": dict(
         technique="runtime monitor: logical-clock stamps and gauge on gate-controlled jobs of the real pool, race detector (-race) on gpool state",
-        text="Jobs on the real gpool.Pool stamp start/end on a logical clock and keep a running gauge; oracles: per-job execution count, gauge <= workers at every start, workers+1+queue gated submissions complete without a gate opening, Release returns for an idle pool / only after running jobs ended / nothing starts afterwards, no goroutine left after Release; 48 configurations x 4 scenarios; race reports touching gpool are violations.",
+        text="Jobs on the real gpool.Pool stamp start/end on a logical clock and keep a running gauge; oracles: per-job execution count, gauge <= workers at every start, workers+1+queue gated submissions complete without a gate opening, Release returns for an idle pool / only after running jobs ended / nothing starts afterwards, no goroutine left after Release; 48 configurations x 4 scenarios; race reports touching gpool are violations. The transport burst also judges the number of handlers waiting at the gate against MaxInvoke.",
         note="Only the interleavings the scheduler and the gates produced. 'Stops all workers' is observed through runtime.NumGoroutine at quiescence. Blocking steps are bounded by a 30 s watchdog.",
         design="DESIGN.md §4 C19"),
     "C20": dict(
         technique="runtime monitor: recording LogWriter + token join over forced (yield-point hook) and natural interleavings, child processes for aged-process flush and panic exit, race detector on rogger",
-        text="A recording writer observes what the real flusher hands over; entries logged before the flush request must be written exactly once, undivided, per-goroutine in order when FlushLogger returns. The losing interleaving named in the property is forced deterministically through the verif yield point between the flusher's two selects and also reached naturally; queue occupancies 0/1/100/9999 and over-capacity bursts are produced with a gated writer; child processes (no hook involved) decide the flush of a >1 s old process and the panic-triggered exit for four panic value kinds.",
+        text="A recording writer observes what the real flusher hands over; entries logged before the flush request must be written exactly once, undivided, per-goroutine in order when FlushLogger returns. The losing interleaving named in the property is forced deterministically through the verif yield point between the flusher's two selects and also reached naturally; queue occupancies 0/1/100/9999 and over-capacity bursts are produced with a gated writer; child processes (no hook involved) decide the flush of a >1 s old process and the panic-triggered exit for four panic value kinds. One panic child runs with argv[0] in a directory where the stack dump cannot be created.",
         note="In-process trials re-arm the one-shot flush through the verif hook VerifResetFlush, which re-creates the flush contexts; properties of their initial construction are therefore decided by the child-process trials only. A flush taking >= the 1 s flush timeout is inconclusive.",
         design="DESIGN.md §4 C20"),
     "C13": dict(
@@ -37,7 +37,7 @@ CHECKS = {
         design="DESIGN.md §4 C13"),
     "C14": dict(
         technique="runtime monitor: cross-instance agreement over different histories, independent reference ring / list-slot oracle, before/after disruption comparison on real selector instances",
-        text="Target endpoint sets are reached through 3..6 different Refresh/Add/Remove histories on separate real selector instances; all instances must agree on every probed code (every ring point and its +-1 neighbours, 0, 2^32-1, random) and with an independently computed Ketama/default ring where that is unambiguous; removing/adding an endpoint may move only its own codes; mod-hash must map h to slot h mod N of the installed list and, weighted, to a cycle with the formula's counts and period identical across histories. Sets around hosts with colliding virtual points (birthday search in a fixed 3000-host universe) are probed and reported per colliding pair.",
+        text="Target endpoint sets are reached through 3..6 different Refresh/Add/Remove histories on separate real selector instances; all instances must agree on every probed code (every ring point and its +-1 neighbours, 0, 2^32-1, random) and with an independently computed Ketama/default ring where that is unambiguous; removing/adding an endpoint may move only its own codes; mod-hash must map h to slot h mod N of the installed list and, weighted, to a cycle with the formula's counts and period identical across histories. Sets around hosts with colliding virtual points (birthday search in a fixed 3000-host universe) are probed and reported per colliding pair. Manager level: real proxies fed by a fake registrar reach an active set through refreshes that change the set or the weight mode or through a status check that removes a failing endpoint; a client started on the final set must route every code identically (consistent hash) and to slot h mod N of the reported active list (mod hash).",
         note="The 2^32 code space is sampled at the points where the mapping can change. An end-to-end phase sends real calls with a hash code in the context to one scripted server per endpoint and compares the receiving server with the prediction. 12 colliding host pairs are recorded as open known findings.",
         design="DESIGN.md §4 C14"),
     "C03": dict(
@@ -72,37 +72,37 @@ CHECKS = {
         design="DESIGN.md §4 C12"),
     "C08": dict(
         technique="runtime monitor: token-joined client/server event logs of real ServantProxy callers against a scripted reordering/duplicating/forging server; interval join for id uniqueness",
-        text="G callers (2/16/128) share one real proxy (also: two communicators holding proxies for the same object) and call a scripted server that reads every request id with the reference codec and answers by script: in order, reversed or randomly permuted windows, duplicated x2/x5, late (1.5x timeout), dropped, plus responses for ids nobody waits for (far away, already completed at the client, not yet issued) and id-0 pushes. The response for id X carries the token of request X, so a returned foreign token is a misdelivery; ids seen on the wire must be non-zero and distinct among calls overlapping in time (interval join on a logical clock); the id counter is preset to MaxInt32-k to cross the wrap under load.",
+        text="G callers (2/16/128) share one real proxy (also: two communicators holding proxies for the same object) and call a scripted server that reads every request id with the reference codec and answers by script: in order, reversed or randomly permuted windows, duplicated x2/x5, late (1.5x timeout), dropped, plus responses for ids nobody waits for (far away, already completed at the client, not yet issued) and id-0 pushes. The response for id X carries the token of request X, so a returned foreign token is a misdelivery; ids seen on the wire must be non-zero and distinct among calls overlapping in time (interval join on a logical clock); the id counter is preset to MaxInt32-k to cross the wrap under load. An id-draw stress (hook VerifGenRequestID = the real genRequestID) presets the counter to MaxInt32-k and lets 8 goroutines released together draw 6 ids each, 150000 rounds (2000000 thorough): ids of one round must be non-zero and distinct. A response-cut script and a deterministic cut scenario (the peer dies right behind the request-id field of a longer response, the next call goes over a new connection) decide that bytes of a dead connection are never joined with the next one's.",
         note="Only the interleavings that occur; the scripts make the dangerous ones common. The id-wrap batches need the verifmsgid hook and are skipped (and reported as such in the evidence) when it does not compile against the tree.",
         design="DESIGN.md §4 C08"),
     "C09": dict(
         technique="runtime monitor: monotonic call-boundary timing with replay-confirmed overruns, hook probes of in-flight counters and pending-reply tables, token check on a control batch, against fault-script peers",
-        text="Real ServantProxy callers (1/8/64, two-way and one-way, tcp and ssl endpoints) run against peers that refuse, black-hole (full accept backlog), accept and stay silent, read and stay silent, reply after 0.5/0.9/1.0(+-400us)/1.1/3x the deadline, close or reset at every point, send four kinds of garbage or never read 1 MiB requests; deadlines come from the proxy timeout, the per-call client timeout and the context deadline. A call must return within deadline + dial bound + 2 s (an overrun only counts when three isolated replays exceed it too), the in-flight counter, pending-reply tables and manager counter must return to their previous values, and after the peer heals a 20-call control batch must succeed with its own tokens.",
+        text="Real ServantProxy callers (1/8/64, two-way and one-way, tcp and ssl endpoints) run against peers that refuse, black-hole (full accept backlog), accept and stay silent, read and stay silent, reply after 0.5/0.9/1.0(+-400us)/1.1/3x the deadline, close or reset at every point, send four kinds of garbage or never read 1 MiB requests; deadlines come from the proxy timeout, the per-call client timeout and the context deadline. A call must return within deadline + dial bound + 2 s (an overrun only counts when three isolated replays exceed it too), the in-flight counter, pending-reply tables and manager counter must return to their previous values, and after the peer heals a 20-call control batch must succeed with its own tokens. Late-reply scenarios route every other caller through a second proxy for the same object; 24-caller scenarios behind an endpoint whose connection establishment hangs (TCP blackhole, TLS handshake never answered) and scenarios with a bound of 3 calls in flight (refused calls must not stay counted) were added.",
         note="Inherently wall-clock; mitigated by the generous slack and replay confirmation. 'Never returns' is a bounded watchdog (bound + 30 s).",
         design="DESIGN.md §4 C09"),
     "C11": dict(
         technique="runtime monitor: connection ledger of a scripted server joined by token with call outcomes/latencies of a real ServantProxy; transport probe to order calls after the client registered the close",
-        text="A scripted server that answers everything it receives closes connections after a response, when idle, abortively, by restart on the same port, after the reconnect notice (also keeping the noticed connection open for a while), right after accept, and goes down while a call is attempted; after each close the monitor waits until the client registered it and issues 1 or 8 concurrent calls after delays on both sides of the sender goroutine's 1 s poll, over many cycles, followed by sequential follow-up calls. Each call must succeed with its own token within half its timeout, its request must arrive exactly once, never on a connection announced as closing, no call may hang, and no further connection may be opened while the current one is healthy.",
+        text="A scripted server that answers everything it receives closes connections after a response, when idle, abortively, by restart on the same port, after the reconnect notice (also keeping the noticed connection open for a while), right after accept, and goes down while a call is attempted; after each close the monitor waits until the client registered it and issues 1 or 8 concurrent calls after delays on both sides of the sender goroutine's 1 s poll, over many cycles, followed by sequential follow-up calls. Each call must succeed with its own token within half its timeout, its request must arrive exactly once, never on a connection announced as closing, no call may hang, and no further connection may be opened while the current one is healthy. In down-call-up three calls are made while the server is away, single-caller scenarios of that kind with a bound of 4 calls in flight.",
         note="Calls racing with the close itself are outside the verdict. Interleavings of the client's sender/receiver goroutines are those that occur over the repeated cycles.",
         design="DESIGN.md §4 C11"),
     "C15": dict(
         technique="runtime monitor: trace assertions P1-P6 over token-joined logs of real calls against scripted per-endpoint servers behind a fake registrar, virtual time through hook-shifted health timestamps and hook-driven status checks",
-        text="A real communicator/endpoint manager/adapters resolve 2..4 endpoints (distinct loopback hosts) from a fake registrar; one scripted server per endpoint answers, stays silent or refuses per step; seeded scripts mix call batches (60 ms timeout), behaviour changes, virtual time advances and status checks, and end with a healing tail. Which server receives which token, the active list and the adapters' health records are observed; the assertions check: no removal without / with fewer than two failures, removal after >=5 consecutive failures over >=8 s while another endpoint is active, at most one probe per 27 s to a blocked endpoint, reinstatement iff the probe succeeded, calls still attempted when every endpoint is blocked, and return of every healed endpoint.",
+        text="A real communicator/endpoint manager/adapters resolve 2..4 endpoints (distinct loopback hosts) from a fake registrar; one scripted server per endpoint answers, stays silent or refuses per step; seeded scripts mix call batches (60 ms timeout), behaviour changes, virtual time advances and status checks, and end with a healing tail. Which server receives which token, the active list and the adapters' health records are observed; the assertions check: no removal without / with fewer than two failures, removal after >=5 consecutive failures over >=8 s while another endpoint is active, at most one probe per 27 s to a blocked endpoint, reinstatement iff the probe succeeded, calls still attempted when every endpoint is blocked, and return of every healed endpoint. A third of the call batches have 1-2 calls, every third script starts with a one-failure-then-check prologue, calls alternate between round-robin, mod-hash and consistent-hash routing, and failed calls nobody saw are attributed through the adapters' counters (all blocked and no registry endpoint tried = P6).",
         note="Virtual time shifts lastSuccessTime/lastBlockTime/lastCheckTime (all health comparisons have the form now - stamp >= K) and adds the real seconds elapsed; 3 s margins around the thresholds. The automatic ticker is set to 1 h through the first application's client configuration.",
         design="DESIGN.md §4 C15"),
     "C01": dict(
         technique="runtime monitor: token-joined event log across generated proxy, frame tap, real server stack and recording servant; reflection-driven calls with model-value equality oracles",
-        text="Per filter configuration a fresh isolated application runs the real stack (generated proxy -> ServantProxy -> transport client -> frame-parsing, re-chunking tap -> TarsServer -> tars.Protocol -> generated dispatcher -> recording servant) for an interface compiled at check time by the tree's own tars2go (12 functions over every type category, out-before-in, void, many outs). 1/4/32 callers share one proxy; each call draws function, argument values, request context/status maps, a directive for the servant (values, response context/status, tars.Error or plain error) and the proxy form (plain, WithContext, OneWay). Joined by token: executed exactly once, arguments/context/status received == sent, returned values/maps == directive, error code/message == directive, one-way never answered on the wire, pass-through filters seen once in registration order per side and properly nested.",
+        text="Per filter configuration a fresh isolated application runs the real stack (generated proxy -> ServantProxy -> transport client -> frame-parsing, re-chunking tap -> TarsServer -> tars.Protocol -> generated dispatcher -> recording servant) for an interface compiled at check time by the tree's own tars2go (12 functions over every type category, out-before-in, void, many outs). 1/4/32 callers share one proxy; each call draws function, argument values, request context/status maps, a directive for the servant (values, response context/status, tars.Error or plain error) and the proxy form (plain, WithContext, OneWay). Joined by token: executed exactly once, arguments/context/status received == sent, returned values/maps == directive, error code/message == directive, one-way never answered on the wire, pass-through filters seen once in registration order per side and properly nested. Added configurations: the servant registered through the context-less interface (separate dispatcher call emitters), and filters registered after the application's first calls (they must see the calls that follow).",
         note="The IDL is one hand-written interface (plus the generated-IDL corpus of C16). UDP/TLS transports are outside the statement. Error code 0 / empty messages excluded by design.",
         design="DESIGN.md §4 C01"),
     "C10": dict(
         technique="runtime monitor: raw scripted clients (requests built with the reference codec) against the real server stack with a gate-controlled recording servant; per-request join of responses, identity, codes and execution counts",
-        text="The real tars.Protocol + generated dispatcher + recording servant run on real TarsServers (tcp/udp x pool 0/1/4 x handle timeout 0/250 ms). Raw clients pipeline requests over 1/3/10 connections: versions TARS/TUP/JSON, two-way/one-way, success with result values, tars.Error, plain error, tars_ping, unknown function, ids incl. negative/1/MaxInt32, request timeouts. Queue timeout and handle timeout are produced with gates, not sleeps. Per request: number of responses after a quiescence poll (1 / 0 for one-way, never 2), echoed id/version/packet type, TUP reply layout, return code and message, decoded result values per version, and how often the implementation ran (0 for ping, unknown function and queue timeout).",
+        text="The real tars.Protocol + generated dispatcher + recording servant run on real TarsServers (tcp/udp x pool 0/1/4 x handle timeout 0/250 ms). Raw clients pipeline requests over 1/3/10 connections: versions TARS/TUP/JSON, two-way/one-way, success with result values, tars.Error, plain error, tars_ping, unknown function, ids incl. negative/1/MaxInt32, request timeouts. Queue timeout and handle timeout are produced with gates, not sleeps. Per request: number of responses after a quiescence poll (1 / 0 for one-way, never 2), echoed id/version/packet type, TUP reply layout, return code and message, decoded result values per version, and how often the implementation ran (0 for ping, unknown function and queue timeout). Every fourth request calls a void function without parameters; on every other TCP connection the pipelined stream is written in chunks ending 1-3 bytes into the next length prefix. UDP bursts are paced and an unanswered UDP request is judged only while the kernel reports no dropped datagrams for either socket.",
         note="Arguments are those of one function (outFirst) encoded per version; other functions' codecs are covered by C01/C03. The TUP reply layout carries no return code, so codes are judged for TARS and JSON.",
         design="DESIGN.md §4 C10"),
     "C16": dict(
         technique="runtime monitor: child-process pipeline over generated IDL programs (tool exit/CPU-time watchdog, go build, codec-oracle engine on the compiled output), exhaustive token-boundary truncations and mutations for termination, regenerate-and-diff of the checked-in bindings",
-        text="Probe programs (one per language construct: every scalar as require/optional/default/vector/array, enums, consts, nested and cross-module structs/enums incl. two include levels, key declarations, interfaces with every parameter kind, keyword-like names) and seeded random programs are run through the working tree's tars2go under a CPU-time watchdog; every emitted package is compiled; the compiled corpus is driven by the codec engine (round trip, reference decoder, canonical form, unknown-field skipping, absent optionals on reuse); every token-boundary truncation, sampled token deletions/duplications/swaps, random bytes, token soup and degenerate megabyte inputs must terminate, truncations inside a definition with a diagnostic; the framework's own IDL is regenerated with the Makefile flags and compared with the checked-in bindings after dropping the banner and gofmt normalisation.",
+        text="Probe programs (one per language construct: every scalar as require/optional/default/vector/array, enums, consts, nested and cross-module structs/enums incl. two include levels, key declarations, interfaces with every parameter kind, keyword-like names) and seeded random programs are run through the working tree's tars2go under a CPU-time watchdog; every emitted package is compiled; the compiled corpus is driven by the codec engine (round trip, reference decoder, canonical form, unknown-field skipping, absent optionals on reuse); every token-boundary truncation, sampled token deletions/duplications/swaps, random bytes, token soup and degenerate megabyte inputs must terminate, truncations inside a definition with a diagnostic; the framework's own IDL is regenerated with the Makefile flags and compared with the checked-in bindings after dropping the banner and gofmt normalisation. Files defining two or three modules (with an include whose types the first and third module use) are among the probes.",
         note="A grammar-wide sample of programs, not all programs. Call transparency of generated interfaces is decided on the hand-written interface in C01 (generated interfaces are compiled here). IDL keywords as identifiers, escaped quotes in string literals and array lengths given by constants are not part of the generated language.",
         design="DESIGN.md §4 C16"),
 }
